@@ -16,8 +16,9 @@ Scope: injectivity is a statement about the PRE-HASH TERM (`HashTerm`): what is 
 clause on hashing); the correspondence check still compares the 64-bit values, so a collision met there is
 reported as a mismatch.  Integers in terms are unbounded (`Nat`): list lengths ≥ 2^64 are excluded.
 
-The explicit `signature` attribute REPLACES args / env / deps / deps-style / inherit-env /
-can-safely-interrupt (docs/buildsystem.rst, "Shell Tool"), which is what `relevant` says.
+The explicit `signature` attribute REPLACES the built-in strategy: args / env / deps / deps-style / inherit-env /
+can-safely-interrupt / working-directory / control-enabled (docs/buildsystem.rst, "Shell Tool"), which is what
+`relevant` says.
 -/
 import LLBuild.Lemmas.Signature
 
@@ -32,6 +33,9 @@ structure ShellBody where
   depsStyle : Nat
   inheritEnv : Bool
   canSafelyInterrupt : Bool
+  /-- as stored (absolute) -/
+  workingDirectory : Bytes
+  controlEnabled : Bool
   deriving DecidableEq, Repr
 
 /-- The signature-relevant part of a shell command definition. -/
@@ -52,7 +56,8 @@ def relevant (d : CommandDef) : Relevant :=
     alwaysOutOfDate := d.alwaysOutOfDate,
     body := if d.signatureData.isEmpty then
         .inr { args := d.args, env := d.env, depsPaths := d.depsPaths, depsStyle := d.depsStyle,
-               inheritEnv := d.inheritEnv, canSafelyInterrupt := d.canSafelyInterrupt }
+               inheritEnv := d.inheritEnv, canSafelyInterrupt := d.canSafelyInterrupt,
+               workingDirectory := d.workingDirectory, controlEnabled := d.controlEnabled }
       else .inl d.signatureData }
 
 /-- The signature-relevant part for tools that use `ExternalCommand::getSignature` unchanged (phony, mkdir, …). -/
@@ -124,7 +129,7 @@ theorem C09_sig_defined (d : CommandDef) :
 
 /-- **C09_sig_injective** — "Definitions differing in any of those parts have different signatures":
 equal signature terms force equal name, inputs, outputs, flags and (explicit signature | args, env,
-deps paths, deps style, inherit-env, can-safely-interrupt).  Proved over the GENERATED recipe. -/
+deps paths, deps style, inherit-env, can-safely-interrupt, working-directory, control-enabled).  Proved over the GENERATED recipe. -/
 theorem C09_sig_injective : C09_sig_injective_full recipeOf := by
   intro d₁ d₂ h
   rw [(C09_sig_defined d₁).1, (C09_sig_defined d₂).1, Option.some.injEq] at h
@@ -144,9 +149,9 @@ theorem C09_sig_injective : C09_sig_injective_full recipeOf := by
     · obtain ⟨ha, hl⟩ := prefixed_inj hl
       obtain ⟨he, hl⟩ := prefixed_pairs_inj hl
       obtain ⟨hd, hl⟩ := prefixed_inj hl
-      simp only [List.cons.injEq, HashTerm.int.injEq, and_true] at hl
-      obtain ⟨hs, hi, hc⟩ := hl
-      simp [ha, he, hd, hs, boolInt_inj hi, boolInt_inj hc]
+      simp only [List.cons.injEq, HashTerm.int.injEq, HashTerm.str.injEq, and_true] at hl
+      obtain ⟨hs, hi, hc, hw, hce⟩ := hl
+      simp [ha, he, hd, hs, boolInt_inj hi, boolInt_inj hc, hw, boolInt_inj hce]
   cases d₁; cases d₂
   simp only [relevant] at hbody ⊢
   simp_all
@@ -181,7 +186,7 @@ theorem C09_sig_pure (d₁ d₂ : CommandDef) (h : relevant d₁ = relevant d₂
       · simp at hb; simp [hb]
       · simp at hb
       · simp at hb
-      · simp at hb; obtain ⟨a, b, c, dd, e, f⟩ := hb; simp [a, b, c, dd, e, f]
+      · simp at hb; obtain ⟨a, b, c, dd, e, f, g, h⟩ := hb; simp [a, b, c, dd, e, f, g, h]
     rw [h1, he, hs]
   exact ⟨key, by rw [key]⟩
 
